@@ -1266,6 +1266,7 @@ _PT_EXPLICIT = {
     "teos_common::net::AddressType::is_clearnet": {"IpV4"},
     "teos_common::net::AddressType::is_tor": {"TorV3"},
     "watchtower_plugin::net::http::RequestError::is_connection": {"ConnectionError"},
+    "watchtower_plugin::retrier::RetrierStatus::failed": {"Failed"},
 }
 
 
@@ -1284,7 +1285,7 @@ def rule_PT(ctx, tier):
     P = ctx.prog
     for bid, b in sorted(P.bodies.items()):
         last = bid.split("::")[-1]
-        if not last.startswith("is_") or not bid.startswith(("watchtower_plugin::", "teos_common::net::")) or "::tests::" in bid or len(b.locals) < 2 or b.kind == "closure":
+        if not (last.startswith("is_") or bid in _PT_EXPLICIT) or not bid.startswith(("watchtower_plugin::", "teos_common::net::")) or "::tests::" in bid or len(b.locals) < 2 or b.kind == "closure":
             continue
         if bid.startswith("watchtower_plugin::TowerStatus::"):
             continue
@@ -1304,5 +1305,5 @@ def rule_PT(ctx, tier):
             rr.ok("%s == %s" % (shortfn(bid), sorted(exp)), sample={"rule": "PT", "predicate": bid, "table": t})
         else:
             rr.fail("named-predicate:%s=%s" % (shortfn(bid), ",".join(sorted(good)) or "nothing"), "`%s` is true for %s, its name and its callers mean %s" % (shortfn(bid), sorted(good) or "no variant", sorted(exp)), where=b.span)
-    rr.require_floor(8, "named predicates folded")
+    rr.require_floor(9, "named predicates folded")
     return rr
